@@ -1,13 +1,16 @@
 // ---- prelude/sync.rs: stand-ins for std::sync::{Mutex, MutexGuard, RwLock, PoisonError} (assumed contracts) ----
-// Sequential view (DESIGN 2.4): `cur()` is the value the mutex holds when this call locks it.  No
-// function under contract locks the same mutex twice with a write in between.  Locks are never poisoned.
+// Sequential view (DESIGN 2.4): `cur()` is the value the mutex holds when this call locks it, `fin()` the value it is
+// left with.  No function under contract locks the same mutex twice.  Locks are never poisoned.
 #[verifier::external_body]
 #[verifier::reject_recursive_types(T)]
 pub struct Mutex<T> { _p: core::marker::PhantomData<T> }
 
-#[verifier::external_body]
-#[verifier::reject_recursive_types(T)]
-pub struct MutexGuard<'a, T> { _p: core::marker::PhantomData<&'a T> }
+// The guard is a REAL struct holding the mutable borrow of the guarded value (this Verus resolves the borrow's
+// prophecy when the guard dies), so what a function leaves in a mutex needs no inserted event: `fin()`.
+pub struct MutexGuard<'a, T> { pub inner: &'a mut T }
+impl<'a, T> MutexGuard<'a, T> {
+    pub open spec fn view(&self) -> T { *self.inner }
+}
 
 #[verifier::external_body]
 #[verifier::reject_recursive_types(T)]
@@ -23,37 +26,24 @@ impl<T> Mutex<T> {
     pub fn new(v: T) -> (r: Mutex<T>)
         ensures r.cur() == v,
     { unimplemented!() }
+    // the value the mutex holds once the guard taken by the function under contract is gone (end of its scope, or the
+    // end of the statement for a temporary guard)
+    pub uninterp spec fn fin(&self) -> T;
     #[verifier::external_body]
     pub fn lock(&self) -> (r: core::result::Result<MutexGuard<'_, T>, PoisonError<MutexGuard<'_, T>>>)
-        ensures r is Ok, r->Ok_0@ == self.cur(), r->Ok_0.of() == self,
+        ensures r is Ok, r->Ok_0@ == self.cur(), *final(r->Ok_0.inner) == self.fin(),
     { unimplemented!() }
-}
-impl<T> Mutex<T> {
-    // the value the mutex holds once the guard taken by the function under contract has been dropped
-    pub uninterp spec fn fin(&self) -> T;
-}
-// ghost event "the guard goes out of scope here" (inserted by the contract at the end of the guard's scope, anchor
-// `scope-end`): Rust drops the guard there, which publishes the guarded value.  Assumed (drop is not modelled by Verus).
-#[verifier::external_body]
-pub proof fn guard_released<T>(g: &MutexGuard<'_, T>)
-    ensures g.of().fin() == g@,
-{ unimplemented!() }
-impl<'a, T> MutexGuard<'a, T> {
-    pub uninterp spec fn view(&self) -> T;
-    pub uninterp spec fn of(&self) -> &'a Mutex<T>;     // the mutex this guard belongs to
 }
 impl<'a, T> core::ops::Deref for MutexGuard<'a, T> {
     type Target = T;
-    #[verifier::external_body]
     fn deref(&self) -> (r: &T)
         ensures *r == self@,
-    { unimplemented!() }
+    { &*self.inner }
 }
 impl<'a, T> core::ops::DerefMut for MutexGuard<'a, T> {
-    #[verifier::external_body]
     fn deref_mut(&mut self) -> (r: &mut T)
-        ensures *r == old(self)@, final(self)@ == *final(r), final(self).of() == old(self).of(),
-    { unimplemented!() }
+        ensures *r == old(self)@, final(self)@ == *final(r), *final(final(self).inner) == *final(old(self).inner),
+    { &mut *self.inner }
 }
 
 #[verifier::external_body]
